@@ -436,9 +436,13 @@ func (e *entryValueMap) tryExpungeLocked() (isExpunged bool) {
 }
 
 func (m *ValueMap) ToJSON() ([]byte, error) {
+	return m.toJSONWith(map[*VMValue]bool{})
+}
+
+// toJSONWith 序列化，save 为当前路径上已经访问过的容器(用于检测循环引用)，嵌套的字典与外层共用同一个集合
+func (m *ValueMap) toJSONWith(save map[*VMValue]bool) ([]byte, error) {
 	var lst [][]byte
 	var err error
-	save := map[*VMValue]bool{}
 	m.Range(func(key string, value *VMValue) bool {
 		var jsonKey []byte
 		var jsonData []byte
